@@ -10,3 +10,11 @@ func lemmaDecodeEncode(b []byte) []byte {
 	s := Encode(b)
 	return Decode(s)
 }
+
+// CheckDecode(CheckEncode(input, version)) returns input and version without error, for every payload and
+// version byte: CheckEncode and CheckDecode are executed as written (inlined), Encode, Decode and checksum
+// by their contracts.
+func lemmaCheckDecodeEncode(input []byte, version byte) ([]byte, byte, error) {
+	s := CheckEncode(input, version)
+	return CheckDecode(s)
+}
